@@ -2,6 +2,7 @@ package c16
 
 import (
 	"math"
+	"strings"
 
 	"github.com/go-gl/mathgl/mgl64"
 	closest "github.com/trajectoryjp/closest_go"
@@ -118,7 +119,20 @@ func cluster(g *Gen, t eid, n int, down, up int64, same bool) []eid {
 			v = h
 		}
 		var c eid
-		switch g.Intn(10) {
+		switch g.Intn(11) {
+		case 10: // the indices of an earlier entry at another zoom: a different voxel with equal x, y, f
+			c = t
+			if len(es) > 0 {
+				c = es[g.Intn(len(es))]
+			}
+			switch {
+			case same:
+				c.h, c.v = c.h+1, c.v+1
+			case g.Chance(0.5):
+				c.h++
+			default:
+				c.v++
+			}
 		case 0, 1:
 			c = t
 		case 2:
@@ -979,14 +993,28 @@ func genQ2E(r *run.Runner, g *Gen, sid bool) bool {
 		}
 		items = append(items, w.L(w.I(e.h), w.I(encodeQuadkey(e.h, e.x, e.y)), w.I(e.v), w.I(vi), w.F(mx), w.F(mn)))
 	}
+	if g.Chance(0.4) && len(items) > 0 { // the same quadkey and vertical index at another quadkey zoom / vertical zoom
+		f := items[g.Intn(len(items))].(w.List)
+		qz2, vz2 := w.AsInt(f[0]), w.AsInt(f[2])
+		if g.Chance(0.6) || form == "bit-form" {
+			qz2++
+		} else {
+			vz2++
+		}
+		if qz2 <= 31 && vz2 <= 35 {
+			items = append(items, w.L(w.I(qz2), f[1], w.I(vz2), f[3], f[4], f[5]))
+			g.R.Shuffle(len(items), func(i, j int) { items[i], items[j] = items[j], items[i] })
+			form += ",same-indices-other-zoom"
+		}
+	}
 	oh := clampZ(t.h + g.Int63n(4) - 1)
 	ov := clampZ(t.v + g.Int63n(4) - 1)
-	if form == "bit-form" {
+	if strings.HasPrefix(form, "bit-form") {
 		ov = 14 + g.Int63n(8)
 	}
 	if sid {
 		ov = oh
-		if form == "bit-form" {
+		if strings.HasPrefix(form, "bit-form") {
 			oh = min64(oh, 22)
 			ov = oh
 		}
@@ -1029,6 +1057,21 @@ func genTiles(r *run.Runner, g *Gen, spatial bool) bool {
 		}
 		tiles = append(tiles, w.L(w.I(hz), w.I(tx), w.I(ty), w.I(tvz), w.I(tz)))
 	}
+	tags := []string{}
+	if g.Chance(0.45) { // the same x, y, vZoom, z at ANOTHER horizontal zoom: different voxels whose index triples coincide
+		for k := 1 + g.Intn(2); k > 0; k-- {
+			f := w.AsInts(tiles[g.Intn(len(tiles))])
+			h2 := f[0] + g.Pick(1, -1, 2)
+			if h2 < 0 || h2 > 35 {
+				h2 = f[0] + 1
+			}
+			if h2 >= 0 && h2 <= 35 {
+				tiles = append(tiles, w.L(w.I(h2), w.I(f[1]), w.I(f[2]), w.I(f[3]), w.I(f[4])))
+			}
+		}
+		g.R.Shuffle(len(tiles), func(i, j int) { tiles[i], tiles[j] = tiles[j], tiles[i] })
+		tags = append(tags, "same-indices-other-zoom")
+	}
 	if g.Chance(0.4) {
 		tiles = append(tiles, tiles[g.Intn(len(tiles))])
 	}
@@ -1044,7 +1087,7 @@ func genTiles(r *run.Runner, g *Gen, spatial bool) bool {
 		ov--
 	}
 	decoys := [][]w.Val{{tiles[:1], w.I(E), w.I(O), w.I(ov)}, {tiles, w.I(E), w.I(O + 1), w.I(ov)}, {tiles, w.I(E), w.I(O), w.I(clampZ(ov - 1))}}
-	return emit(r, name, []w.Val{tiles, w.I(E), w.I(O), w.I(ov)}, decoys, g.R.Int63(), []string{Tag("O=%d", O), lenTag(len(tiles))}, false)
+	return emit(r, name, []w.Val{tiles, w.I(E), w.I(O), w.I(ov)}, decoys, g.R.Int63(), append(tags, Tag("O=%d", O), lenTag(len(tiles))), false)
 }
 
 func genExpand(r *run.Runner, g *Gen) bool {
@@ -1233,6 +1276,10 @@ func fixedCases(r *run.Runner) {
 			emit(r, "MergeExtendedSpatialIds", []w.Val{extStrs(es), w.I(0), w.I(0)}, nil, 11, []string{"fixed"}, false)
 		}
 	}
+	// tiles of different horizontal zooms whose x, y and converted z coincide: different voxels, all of them are returned in any order
+	tl := w.List{w.L(w.I(22), w.I(85263), w.I(65423), w.I(23), w.I(4)), w.L(w.I(23), w.I(85263), w.I(65423), w.I(23), w.I(4)), w.L(w.I(23), w.I(85264), w.I(65423), w.I(23), w.I(4))}
+	emit(r, "ConvertTileXYZsToExtendedSpatialIDs", []w.Val{tl, w.I(25), w.I(0), w.I(23)}, [][]w.Val{{tl[:1], w.I(25), w.I(0), w.I(23)}}, 13, []string{"fixed", "same-indices-other-zoom"}, false)
+	emit(r, "ConvertTileXYZsToSpatialIDs", []w.Val{tl, w.I(25), w.I(0), w.I(23)}, [][]w.Val{{tl[:1], w.I(25), w.I(0), w.I(23)}}, 13, []string{"fixed", "same-indices-other-zoom"}, false)
 	// HorizontalZoom: the same x, y and zoom difference at another input zoom between two repeats
 	emit(r, "HorizontalZoom", []w.Val{w.I(5), w.I(3), w.I(3), w.I(7)}, [][]w.Val{{w.I(5), w.I(3), w.I(3), w.I(6)}, {w.I(6), w.I(3), w.I(3), w.I(8)}}, 3, []string{"fixed"}, false)
 	emit(r, "VerticalZoom", []w.Val{w.I(5), w.I(-3), w.I(7)}, [][]w.Val{{w.I(5), w.I(-3), w.I(6)}, {w.I(6), w.I(-3), w.I(8)}}, 3, []string{"fixed"}, false)
